@@ -1116,6 +1116,7 @@ type hbSpec struct {
 	Sizes, Ages, Lags []int
 	Stagnant          bool // the population-level stagnation counter is far past DropOffAge+5 (delta coding at the next epoch)
 	Unsorted          bool // genes are listed in descending innovation order (legal for the readers and for duplication, not produced by the operators)
+	Cross             bool // the members of a species other than its first and last resemble the NEXT species' genomes (a member's offspring may be nearest to another species' representative)
 	SelfLoop          bool // every genome carries a self-loop gene on the output that is NOT flagged recurrent (legal for the readers and constructors, not produced by add-link)
 }
 
@@ -1126,6 +1127,11 @@ var hbSpecs = map[string]hbSpec{
 	"hb4": {Sizes: []int{2, 2, 2}, Ages: []int{6, 7, 11}, Lags: []int{0, 1, 2}},
 	"hb5": {Sizes: []int{10, 6, 4, 4}, Ages: []int{7, 8, 9, 12}, Lags: []int{1, 2, 3, 14}},
 	"hb6": {Sizes: []int{14, 7, 5, 4}, Ages: []int{7, 7, 7, 7}, Lags: []int{0, 0, 0, 0}},
+	// stagnating population whose species hold members that resemble another species: at the delta-coding epoch the
+	// species below the top two keep their organisms (quota 0) while babies that are nearest to them arrive
+	"hbx": {Sizes: []int{5, 4, 4}, Ages: []int{7, 5, 4}, Lags: []int{1, 0, 0}, Stagnant: true, Cross: true},
+	// many species: more reproduction goroutines in a parallel epoch than any fixed pool size a implementation may have (20 species, 40 organisms)
+	"hbm": {Sizes: []int{2, 2, 2, 2, 2, 2, 2, 2, 2, 2, 2, 2, 2, 2, 2, 2, 2, 2, 2, 2}, Ages: []int{3, 4, 5, 6, 7, 3, 4, 5, 6, 7, 3, 4, 5, 6, 7, 3, 4, 5, 6, 7}, Lags: []int{0, 0, 1, 0, 2, 0, 0, 1, 0, 2, 0, 0, 1, 0, 2, 0, 0, 1, 0, 2}},
 	"hbt": {Sizes: []int{2, 2, 2, 2, 2}, Ages: []int{3, 4, 5, 6, 7}, Lags: []int{0, 0, 1, 0, 2}},
 	// stagnating populations of odd size: delta coding hands the whole population to the top one / two species
 	"hbd1": {Sizes: []int{7, 6}, Ages: []int{3, 4}, Lags: []int{0, 0}, Stagnant: true},
@@ -1171,6 +1177,9 @@ func buildHandBuilt(sp hbSpec, opts *neat.Options) *genetics.Population {
 			spec := hbGenome(id, si+func() int {
 				if sp.Unsorted {
 					return 2
+				}
+				if sp.Cross && i%2 == 1 {
+					return (si+1)%len(sp.Sizes) - si
 				}
 				return 0
 			}(), i)
@@ -1268,7 +1277,27 @@ func runEpochBody(c *Ctx, sc EpochScenario, oracles oracleSet, x *Exec, cnt map[
 }
 
 // runEpochBodyOpts: tweak (if set) adjusts the options; keepKeys keeps textual population keys.
+// epochVerbose: every third scenario (by a hash of its name) runs at the library's log level "debug" with the
+// four log sinks silenced - the log level is a process-wide setting of the library like any other, and what
+// is logged must neither fail nor influence the turnover. Returns the function that restores the level.
+func epochVerbose(sc EpochScenario) func() {
+	sc.Policy = ""
+	if hashString(sc.String())%3 != 0 {
+		return func() {}
+	}
+	oldLevel, d, i, w, e := neat.LogLevel, neat.DebugLog, neat.InfoLog, neat.WarnLog, neat.ErrorLog
+	quiet := func(string) {}
+	neat.DebugLog, neat.InfoLog, neat.WarnLog, neat.ErrorLog = quiet, quiet, quiet, quiet
+	neat.LogLevel = neat.LogLevelDebug
+	return func() {
+		neat.LogLevel, neat.DebugLog, neat.InfoLog, neat.WarnLog, neat.ErrorLog = oldLevel, d, i, w, e
+	}
+}
+
 func runEpochBodyOpts(c *Ctx, sc EpochScenario, oracles oracleSet, x *Exec, cnt map[string]int64, tweak func(*neat.Options), keepKeys bool) *popRun {
+	if c.ID != "C17" && c.ID != "C17CHILD" {
+		defer epochVerbose(sc)()
+	}
 	row := cfgRows[sc.Cfg]
 	r := &popRun{c: c, sc: sc, row: row, opts: row.Options(), oracles: oracles, x: x, cnt: cnt, keepKeys: keepKeys}
 	if tweak != nil {
